@@ -338,9 +338,47 @@ impl Check for C05 {
         "exploration"
     }
     fn chunks(&self, _tier: Tier) -> usize {
-        seq_chunks(alphabet().len())
+        seq_chunks(alphabet().len()) + seq_chunks(crate::c12::alphabet().len())
     }
     fn run_chunk(&self, tier: Tier, chunk: usize, ctx: &mut Ctx) {
+        let own = seq_chunks(alphabet().len());
+        if chunk >= own {
+            // real accesses followed by arbitrary masking and shifting of the loaded word: the slots reported must still be
+            // the ones accessed (a nested sub-word that claims bits beyond bit 255 must not turn into a neighbouring slot)
+            let alpha = crate::c12::alphabet();
+            let max = if tier.thorough() { 5 } else { 4 };
+            run_seq_chunk(alpha.len(), max, chunk - own, &mut |ix| {
+                let seq: Vec<crate::c12::Tk> = ix.iter().map(|i| alpha[*i].clone()).collect();
+                let mut depth = 0usize;
+                for t in &seq {
+                    let (pops, pushes) = crate::c12::arity(t);
+                    if depth < pops {
+                        return false;
+                    }
+                    depth = depth - pops + pushes;
+                }
+                let storage_free = !seq.iter().any(|t| matches!(t, crate::c12::Tk::Sload0 | crate::c12::Tk::Sstore(_)));
+                if storage_free {
+                    return true;
+                }
+                let code = crate::c12::expand_with(&seq, 5);
+                ctx.case(|| json!({"bytes": hex(&code), "storage_free": false}));
+                ctx.count("evaluations", 1);
+                ctx.count("mask_shift_programs", 1);
+                match check_code(&code, false) {
+                    Ok(Some(f)) => {
+                        ctx.distinct("nontrivial", crate::util::h64(&code));
+                        if f.slots > 0 {
+                            ctx.count("mask_shift_programs_with_slots", 1);
+                        }
+                    }
+                    Ok(None) => ctx.count("no_layout", 1),
+                    Err(v) => ctx.violation(v.key, format!("{} [{seq:?} = {}]", v.what, hex(&code)), json!({"bytes": hex(&code), "storage_free": false})),
+                }
+                true
+            });
+            return;
+        }
         let alpha = alphabet();
         run_seq_chunk(alpha.len(), max_len(tier), chunk, &mut |ix| {
             let seq: Vec<Tk> = ix.iter().map(|i| alpha[*i]).collect();
@@ -388,8 +426,12 @@ impl Check for C05 {
              Storage-free programs must yield an empty layout. For mixed programs every layout index must lie in the over-approximated \
              closure of the constants found in KEY sub-trees of the storage nodes of the execution result (constants, their keccak \
              pre-images below 10000, hashes of constant data, one constant addition). non-trivial = every such program (each contains a \
-             look-alike hash); distinct by program",
-            max_len(tier)
+             look-alike hash); distinct by program. Second family: all stack-safe sequences <= {} over the {} mask-and-shift tokens of C12 \
+             (SLOAD 5, CALLDATALOAD, masks, SHR / SHL / DIV / MUL by boundary amounts, OR, DUP1, SWAP1, SSTORE to slot 0 / 1) that touch \
+             storage, under the same attribution oracle",
+            max_len(tier),
+            if tier.thorough() { 5 } else { 4 },
+            crate::c12::alphabet().len()
         );
         exploration_coverage(total, total.get("evaluations"), total.distinct_count("nontrivial"), &rule, true)
     }
